@@ -22,6 +22,8 @@ Judge(r, i) ==
           \* reference (RFC 3986 4.2): its first segment is an authority, not a path segment
           \cup (IF Safe(r) /\ ~r.leak /\ ~AsNormalised(r) /\ r.norm = Norm(r.segs)
                    /\ ~(r.method = "MULTIGET" /\ r.netpath)
+                   \* a Slug header is a naming hint the server may ignore: only safety applies
+                   /\ r.method # "SLUG"
                   THEN {"not-answered-as-the-normalised-path"} ELSE {})
     IN {[k |-> IF d \in EnabledDevs THEN "known" ELSE "viol", i |-> i, dev |-> d] :
           d \in {"path:" \o r.method \o ":" \o Shape(r) \o ":" \o c : c \in clauses}}
